@@ -29,6 +29,7 @@ def plan(tier, seed):
     for fw in ("twisted", "asyncio"):
         jobs.append({"func": "crosstype", "fw": fw, "name": "crosstype/" + fw, "args": {}})
         jobs.append({"func": "syncreply", "fw": fw, "name": "syncreply/" + fw, "args": {}})
+        jobs.append({"func": "progress_grid", "fw": fw, "name": "progress_grid/" + fw, "args": {}})
     jobs.append({"func": "idgen", "name": "idgen", "args": {"seed": seed * 1000 + 900, "n": 500 if tier == "quick" else 5000}})
     return jobs
 
@@ -120,9 +121,9 @@ class Interp:
         plog = []
         self.progress_log[rid] = plog
         o = None
-        if any(v for v in opts.values()):
+        if any(v is not None and v is not False for v in opts.values()):
             o = CallOptions(on_progress=(lambda *a, **k: plog.append((a, k))) if opts.get("on_progress") else None, timeout=opts.get("timeout"),
-                            details=True if opts.get("details") else None)
+                            details=True if opts.get("details") else None, **{k: opts[k] for k in CALL_EXTRA if opts.get(k) is not None})
         before = len(self.w.t.sent)
         snap = self.snapshot()
         kw = dict(kwargs)
@@ -142,6 +143,7 @@ class Interp:
                 self.fail("option-not-faithful|call.receive_progress", "%r for on_progress=%r" % (m.receive_progress, opts.get("on_progress")))
             if m.timeout != opts.get("timeout"):
                 self.fail("option-not-faithful|call.timeout", "%r vs %r" % (m.timeout, opts.get("timeout")))
+            self.check_extra(m, opts, CALL_EXTRA, "call")
         tr = self.w.track(fut)
         self.reqs.append({"kind": "call", "id": rid, "track": tr, "state": "pending", "opts": opts, "uri": proc})
         self.unchanged(snap, None)
@@ -187,11 +189,19 @@ class Interp:
                 self.fail("unacknowledged-publish-returned-future", repr(fut))
         self.unchanged(snap, None)
 
-    def do_subscribe(self, topic, match, details):
+    def check_extra(self, m, opts, names, what):
+        """every wire option given through the options object is on the request message, and none that was not given"""
+        for k in names:
+            want, got = opts.get(k), getattr(m, k)
+            if got != want or type(got) is not type(want):
+                self.fail("option-not-faithful|%s.%s" % (what, k), "wire %r for option %r (all options %r)" % (got, want, opts))
+
+    def do_subscribe(self, topic, match, details, extra=None):
         from autobahn.wamp.types import SubscribeOptions
         rid = self.next_id
         hlog = []
-        o = SubscribeOptions(match=match, details=True if details else None) if (match or details) else None
+        extra = extra or {}
+        o = SubscribeOptions(match=match, details=True if details else None, **{k: v for k, v in extra.items() if v is not None}) if (match or details or any(v is not None for v in extra.values())) else None
         before = len(self.w.t.sent)
         snap = self.snapshot()
         fut, err = self.guarded_api(lambda: self.s.subscribe(lambda *a, **k: hlog.append((a, k)), topic, o), "subscribe")
@@ -205,13 +215,15 @@ class Interp:
                 self.fail("uri-not-faithful|subscribe", "%r vs %r" % (m.topic, topic))
             if (m.match or "exact") != (match or "exact"):
                 self.fail("option-not-faithful|subscribe.match", "%r vs %r" % (m.match, match))
+            self.check_extra(m, extra, SUB_EXTRA, "subscribe")
         self.reqs.append({"kind": "subscribe", "id": rid, "track": self.w.track(fut), "state": "pending", "uri": topic, "hlog": hlog})
         self.unchanged(snap, None)
 
-    def do_register(self, proc, match, invoke):
+    def do_register(self, proc, match, invoke, extra=None):
         from autobahn.wamp.types import RegisterOptions
         rid = self.next_id
-        o = RegisterOptions(match=match, invoke=invoke) if (match or invoke) else None
+        extra = extra or {}
+        o = RegisterOptions(match=match, invoke=invoke, **{k: v for k, v in extra.items() if v is not None}) if (match or invoke or any(v is not None for v in extra.values())) else None
         before = len(self.w.t.sent)
         snap = self.snapshot()
         fut, err = self.guarded_api(lambda: self.s.register(lambda *a, **k: 42, proc, o), "register")
@@ -225,6 +237,7 @@ class Interp:
                 self.fail("uri-not-faithful|register", "%r vs %r" % (m.procedure, proc))
             if (m.match or "exact") != (match or "exact") or (m.invoke or "single") != (invoke or "single"):
                 self.fail("option-not-faithful|register", "match %r/%r invoke %r/%r" % (m.match, match, m.invoke, invoke))
+            self.check_extra(m, extra, REG_EXTRA, "register")
         self.reqs.append({"kind": "register", "id": rid, "track": self.w.track(fut), "state": "pending", "uri": proc})
         self.unchanged(snap, None)
 
@@ -495,6 +508,11 @@ class Interp:
         self.w.close()
 
 
+CALL_EXTRA = ("transaction_hash", "caller", "caller_authid", "caller_authrole", "forward_for")
+SUB_EXTRA = ("get_retained", "forward_for")
+REG_EXTRA = ("concurrency", "force_reregister", "forward_for")
+
+
 def make_machine_factory(col):
     from hypothesis import strategies as st
     from hypothesis.stateful import RuleBasedStateMachine, rule, initialize
@@ -502,6 +520,7 @@ def make_machine_factory(col):
     uris = st.sampled_from(["com.example.a", "com.example.b", "a.b", "x"])
     vals = st.lists(W.values, max_size=3)
     kws = st.dictionaries(st.sampled_from(["a", "b", "x1", "ü"]), W.values, max_size=3)
+    FWD = st.lists(st.fixed_dictionaries({"session": st.sampled_from([1, 7, 2 ** 53]), "authid": st.sampled_from(["joe", "ü"]), "authrole": st.sampled_from(["user", "r"])}), max_size=2)
 
     def make(holder):
         class M(RuleBasedStateMachine):
@@ -519,7 +538,10 @@ def make_machine_factory(col):
                 holder["steps"] = self.i.steps
                 self.i.apply(step)
 
-            @rule(proc=uris, args=vals, kwargs=kws, opts=st.fixed_dictionaries({"on_progress": st.booleans(), "details": st.booleans(), "timeout": st.sampled_from([None, None, 1, 30])}))
+            @rule(proc=uris, args=vals, kwargs=kws, opts=st.fixed_dictionaries({"on_progress": st.booleans(), "details": st.booleans(), "timeout": st.sampled_from([None, None, 1, 30]),
+                                                                                "transaction_hash": st.sampled_from([None, None, None, "0xabcdef", "h"]), "caller": st.sampled_from([None, None, None, 1, 2 ** 53]),
+                                                                                "caller_authid": st.sampled_from([None, None, None, "joe", "ü"]), "caller_authrole": st.sampled_from([None, None, None, "user", "a"]),
+                                                                                "forward_for": st.one_of(st.none(), st.none(), st.none(), FWD)}))
             def call(self, proc, args, kwargs, opts):
                 self.ap("call", proc, args, kwargs, opts)
 
@@ -527,17 +549,21 @@ def make_machine_factory(col):
                 "acknowledge": st.sampled_from([None, True, True, False]), "exclude_me": st.sampled_from([None, True, False]), "exclude": st.sampled_from([None, None, 7, [1, 2], []]),
                 "eligible": st.sampled_from([None, None, None, 9, [3, 4], []]), "exclude_authid": st.sampled_from([None, None, None, "eve", ["x"], []]),
                 "eligible_authid": st.sampled_from([None, None, "joe", ["a", "b"], []]), "exclude_authrole": st.sampled_from([None, None, "admin", []]),
-                "eligible_authrole": st.sampled_from([None, None, None, "user", ["u", "v"], []]), "retain": st.sampled_from([None, True])}))
+                "eligible_authrole": st.sampled_from([None, None, None, "user", ["u", "v"], []]), "retain": st.sampled_from([None, True]),
+                "transaction_hash": st.sampled_from([None, None, None, "0xabcdef"]), "forward_for": st.one_of(st.none(), st.none(), st.none(), FWD)}))
             def publish(self, topic, args, kwargs, opts):
                 self.ap("publish", topic, args, kwargs, opts)
 
-            @rule(topic=uris, match=st.sampled_from([None, None, "prefix", "wildcard", "exact"]), details=st.booleans())
-            def subscribe(self, topic, match, details):
-                self.ap("subscribe", topic, match, details)
+            @rule(topic=uris, match=st.sampled_from([None, None, "prefix", "wildcard", "exact"]), details=st.booleans(),
+                  extra=st.fixed_dictionaries({"get_retained": st.sampled_from([None, None, True, False]), "forward_for": st.one_of(st.none(), st.none(), st.none(), FWD)}))
+            def subscribe(self, topic, match, details, extra):
+                self.ap("subscribe", topic, match, details, extra)
 
-            @rule(proc=uris, match=st.sampled_from([None, None, "prefix"]), invoke=st.sampled_from([None, None, "roundrobin", "single"]))
-            def register(self, proc, match, invoke):
-                self.ap("register", proc, match, invoke)
+            @rule(proc=uris, match=st.sampled_from([None, None, "prefix"]), invoke=st.sampled_from([None, None, "roundrobin", "single", "first", "last", "random"]),
+                  extra=st.fixed_dictionaries({"concurrency": st.sampled_from([None, None, 1, 3]), "force_reregister": st.sampled_from([None, None, True, False]),
+                                               "forward_for": st.one_of(st.none(), st.none(), st.none(), FWD)}))
+            def register(self, proc, match, invoke, extra):
+                self.ap("register", proc, match, invoke, extra)
 
             @rule(k=st.integers(0, 20))
             def unsubscribe(self, k):
@@ -606,6 +632,49 @@ def crosstype(col):
                 col.case(True, enum=True, cls=["crosstype/%s-pending/%s-%s" % (kind, other, "success-form" if idx % 2 == 0 else "error-form")],
                          sample={"ser": ser, "pending": kind, "reply_type": other, "form": "success" if idx % 2 == 0 else "error"})
     col.exhaustive.append("C04 crosstype: 6 pending kinds x 5 other reply types x 2 forms x 3 serializers")
+
+
+def progress_grid(col):
+    """enumerated: 2-3 calls outstanding at once, each with / without a progress handler, with / without call details; progressive
+    results arrive for each call in every order, then the final results in every order.  Every progressive result reaches the handler of
+    exactly its own call (do_reply checks the routing, the content and that nothing completes), every final result completes exactly its own call."""
+    import itertools
+    U = "com.example.a"
+    E = "wamp.error.not_authorized"
+    n_cases = 0
+    for ncalls in (2, 3):
+        for flags in itertools.product((False, True), repeat=ncalls):
+            if not any(flags):
+                continue
+            for details in (False, True):
+                for perm in itertools.permutations(range(ncalls)):
+                    for fin in (tuple(range(ncalls)), tuple(reversed(range(ncalls)))):
+                        i = Interp(col, "json")
+                        try:
+                            for k, f in enumerate(flags):
+                                i.apply(("call", U, [k], {}, {"on_progress": f, "details": details and f, "timeout": None}))
+                            # pending list keeps issue order while nothing is answered: index = call number
+                            for rnd in range(2):
+                                for k in perm:
+                                    i.apply(("reply", k, "progressive", [k, rnd], {"r": rnd}, E))
+                            done = []
+                            for k in fin:
+                                idx = sorted(set(range(ncalls)) - set(done)).index(k)
+                                i.apply(("reply", idx, "success", [100 + k], {}, E))
+                                done.append(k)
+                            calls = [r for r in i.reqs if r["kind"] == "call"]
+                            for k, r in enumerate(calls):
+                                if r["track"].n != 1:
+                                    i.fail("request-not-completed-by-its-reply|call|after-progress", "call %d completion count %r" % (r["id"], r["track"].n))
+                                want = 2 if flags[k] else 0
+                                if len(i.progress_log[r["id"]]) != want:
+                                    i.fail("progress-not-delivered-to-its-handler", "call %d: %d handler invocations, %d progressive results sent to it" % (r["id"], len(i.progress_log[r["id"]]), want))
+                        finally:
+                            i.teardown()
+                        n_cases += 1
+                        col.case(True, enum=True, cls=["progress_grid/%d-calls/%s" % (ncalls, "".join("P" if f else "-" for f in flags))],
+                                 sample={"flags": list(flags), "details": details, "progress_order": list(perm), "final_order": list(fin)})
+    col.exhaustive.append("C04 progress_grid: 2-3 outstanding calls x progress-handler subsets x details x every order of progressive results x 2 final orders (%d histories)" % n_cases)
 
 
 def syncreply(col):
